@@ -19,8 +19,8 @@ def add_failure(out, kind, what, inp, expected, got, confirmed=True, sig=None):
         _add_failure(out, kind, what, inp, expected, got, confirmed=confirmed, sig=sig, maxkeep=400)
 
 PROP = "C08"
-PROPS_FILES = ["CogentModel/Props/C08.lean"]
-LEAN_TARGETS = ["CogentModel.Props.C08"]
+PROPS_FILES = ["CogentModel/Props/C08.lean", "CogentModel/Props/C08FMap.lean"]
+LEAN_TARGETS = ["CogentModel.Props.C08", "CogentModel.Props.C08FMap"]
 DRIVER = "drv_c08"
 TRUSTED = [
     "hand-written models lean/CogentModel/Model/IndelMap.lean (IndelMap, coords_* helpers) and Model/FMap.lean "
@@ -184,6 +184,112 @@ def _rand_bound(rng, n):
     return rng.randint(n, n + 5)
 
 
+def _rand_layout(rng, n):
+    """_rand_pattern with the end classes forced often: leading / trailing / both / all-gap / no-gap"""
+    r = rng.random()
+    if r < 0.03:
+        return "1" * n
+    if r < 0.05:
+        return "0" * n
+    pat = _rand_pattern(rng, n)
+    if r < 0.45 and n >= 2:
+        lead = rng.choice([0, 0, 1, 2, 5]) if r < 0.3 else rng.choice([1, 2, 3])
+        trail = rng.choice([1, 1, 2, 3, 6]) if r < 0.3 else rng.choice([0, 1, 4])
+        lead, trail = min(lead, n // 2), min(trail, n // 2)
+        core = pat[lead : n - trail]
+        if r < 0.15 and len(core) >= 2:
+            # residues directly next to the terminal runs
+            core = "0" + core[1:-1] + "0"
+        pat = "1" * lead + core + "1" * trail
+    return pat
+
+
+def _gap_runs(pat):
+    runs, i, n = [], 0, len(pat)
+    while i < n:
+        if pat[i] == "1":
+            j = i
+            while j < n and pat[j] == "1":
+                j += 1
+            runs.append((i, j))
+            i = j
+        else:
+            i += 1
+    return runs
+
+
+def _targets(pat):
+    """the positions where IndelMap.__getitem__ changes branch: 0, len, every gap start / end, +-1, a point strictly
+    inside every run"""
+    n = len(pat)
+    pts = {0, 1, n - 1, n, n + 1}
+    for a, b in _gap_runs(pat):
+        pts |= {a - 1, a, a + 1, b - 1, b, b + 1, (a + b) // 2}
+    return sorted(p for p in pts if 0 <= p <= n + 1)
+
+
+def _targeted_bound(rng, pat, pts):
+    n = len(pat)
+    r = rng.random()
+    if r < 0.05:
+        return None
+    if r < 0.8:
+        p = rng.choice(pts)
+        if p < n and rng.random() < 0.15:
+            return p - n  # the same position written as a negative index
+        return p
+    return _rand_bound(rng, n)
+
+
+def _targeted_intervals(rng, pat, count):
+    """deliberately chosen (start, stop): exactly a gap, a gap +-1 on either side, both strictly inside one gap,
+    start inside gap k and stop inside gap k+1, from a gap end to the next gap start/end, before the first gap,
+    after the last gap, from 0 / to len; filled up with pairs of targeted bounds"""
+    n = len(pat)
+    runs = _gap_runs(pat)
+    pts = _targets(pat)
+    cands = []
+    if runs:
+        def inside(a, b):
+            return rng.randint(a + 1, b - 1) if b - a >= 2 else a
+
+        for _ in range(2):
+            k = rng.randrange(len(runs))
+            a, b = runs[k]
+            cands += [(a, b), (a, b + 1), (a - 1, b), (a + 1, b), (a, b - 1), (a - 1, b + 1), (a - 1, a), (b, b + 1),
+                      (0, a), (0, a + 1), (0, b), (0, inside(a, b)), (b, n), (b - 1, n), (a, n), (inside(a, b), n),
+                      (None, a), (b, None), (a, None), (None, b)]
+            x, y = sorted((inside(a, b), inside(a, b)))
+            cands += [(x, y), (x, y + 1), (a, y), (x, b)]
+            if k + 1 < len(runs):
+                c, d = runs[k + 1]
+                cands += [(inside(a, b), inside(c, d)), (inside(a, b), c), (inside(a, b), d), (a, inside(c, d)),
+                          (b, inside(c, d)), (b, c), (b, d), (a, c), (a, d), (b - 1, c + 1), (b + 1, c - 1), (b, c + 1)]
+            if k + 2 < len(runs):
+                e, f = runs[k + 2]
+                cands += [(inside(a, b), inside(e, f)), (b, e), (a, f)]
+        f0, l1 = runs[0][0], runs[-1][1]
+        if f0 > 0:
+            cands += [(rng.randint(0, f0), f0), (0, f0 - 1), (rng.randint(0, f0 - 1), rng.randint(0, f0))]
+        if l1 < n:
+            cands += [(l1, rng.randint(l1, n)), (l1 + 1, n), (rng.randint(l1, n), n), (l1, n + 2)]
+        cands += [(f0, l1), (0, n), (runs[0][1], runs[-1][0])]
+    cands = [(a, b) for a, b in cands if (a is None or -n <= a <= n + 2) and (b is None or -n <= b <= n + 2)]
+    rng.shuffle(cands)
+    res = cands[: max(count * 2 // 3, 1)]
+    while len(res) < count:
+        res.append((_targeted_bound(rng, pat, pts), _targeted_bound(rng, pat, pts)))
+    # a few written with negative indices
+    out = []
+    for a, b in res:
+        if n and rng.random() < 0.1:
+            a = a - n if a is not None and 0 <= a < n else a
+        if n and rng.random() < 0.1:
+            b = b - n if b is not None and 0 <= b < n else b
+        out.append((a, b))
+    return out
+
+
 # --------------------------------------------------------------------------
 # correspondence: Lean model vs the real IndelMap / FeatureMap
 # --------------------------------------------------------------------------
@@ -247,16 +353,33 @@ def correspondence(ctx):
             bump(out, "layout_class", _layout_class(pat))
             bump(out, "layout_len", n)
     # ---- 2. random long layouts ----------------------------------------------
+    dreqs, dreals, dmeta = [], [], []  # maps reached by an operation, observed through the validating constructor
+
+    def _long_queries(pat, pl, niv):
+        n = len(pat)
+        pts = _targets(pat)
+        iv = [list(t) for t in _targeted_intervals(rng, pat, niv)]
+        iv += [[_rand_bound(rng, n), _rand_bound(rng, n)] for _ in range(3)]
+        ai = [rng.choice(pts) for _ in range(5)] + [rng.randint(-n - 1, n + 1) for _ in range(3)]
+        # sequence indices of the residues next to gaps, 0, parent_length, negatives
+        spts = sorted({0, pl, max(pl - 1, 0)} | {pat[:p].count("0") for p in pts if p <= n})
+        si = [[rng.choice(spts) - (pl if rng.random() < 0.2 else 0), rng.random() < 0.5] for _ in range(6)]
+        si += [[rng.randint(-pl - 1, pl + 1), rng.random() < 0.5] for _ in range(2)]
+        return dict(iv=iv, ai=ai, si=si)
+
+    def add_derived(how, d, dpat):
+        dq = _long_queries(dpat, dpat.count("0"), 6)
+        dreqs.append(("map", dict(_mapd(d), **dq)))
+        dreals.append(_observe_real(d, dq))
+        dmeta.append((how, dpat, dq))
+        bump(out, "derived_map", how)
+
     for _ in range(ctx.budget(400, 6000)):
         n = rng.choice([9, 10, 12, 17, 30, 60, 120, 200]) if rng.random() < 0.7 else rng.randint(9, 200)
-        pat = _rand_pattern(rng, n)
+        pat = _rand_layout(rng, n)
         s, m, seq = _from_pattern(pat)
         pl = int(m.parent_length)
-        q = dict(
-            iv=[[_rand_bound(rng, n), _rand_bound(rng, n)] for _ in range(12)],
-            ai=[rng.randint(-n - 1, n + 1) for _ in range(6)],
-            si=[[rng.randint(-pl - 1, pl + 1), rng.random() < 0.5] for _ in range(6)],
-        )
+        q = _long_queries(pat, pl, 14)
         reqs.append(("layout", dict(s=pat, **q)))
         real = _observe_real(m, q)
         real["display"] = str(seq.gapped_by_map(m))
@@ -264,6 +387,22 @@ def correspondence(ctx):
         meta.append((pat, q, s))
         bump(out, "layout_class", _layout_class(pat))
         bump(out, "layout_len", "9-200")
+        # reversed / sliced / sliced-then-reversed / reversed-then-sliced maps, queried again
+        a, b = _targeted_intervals(rng, pat, 1)[0]
+        if (a is not None and a < -n) or (b is not None and b < -n):
+            continue
+        try:
+            add_derived("reversed", m.nucleic_reversed(), pat[::-1])
+            add_derived("sliced", m[a:b], pat[a:b])
+            add_derived("sliced-reversed", m[a:b].nucleic_reversed(), pat[a:b][::-1])
+            add_derived("reversed-sliced", m.nucleic_reversed()[a:b], pat[::-1][a:b])
+        except CATCH as e:
+            add_failure(out, "corr", "deriving a map raised", dict(s=pat, a=a, b=b), None, _err(e), confirmed=False)
+    for (cmd, rq), real, model, (how, dpat, dq) in zip(dreqs, dreals, drv.batch(dreqs), dmeta):
+        if "error" in model or "err" in model:
+            add_failure(out, "corr", "derived map rejected by the model", dict(how=how, m=real["m"]), model, real["m"], confirmed=False)
+            continue
+        _compare_obs(out, "derived:" + how, dict(how=how, m=real["m"]), dpat, dq, model, real)
     for (cmd, rq), real, model, (pat, q, s) in zip(reqs, reals, drv.batch(reqs), meta):
         if "error" in model:
             add_failure(out, "corr", "driver error", rq, model, None, confirmed=False)
@@ -313,12 +452,30 @@ def correspondence(ctx):
                 add_bin("merge", pa, pb, lambda a, b: a.merge_maps(b), _mapd, dict(pl=None))
     for _ in range(ctx.budget(300, 3000)):
         n = rng.randint(6, 40)
-        pa, pb = _rand_pattern(rng, n), _rand_pattern(rng, n)
-        for p in (pa, pb):
+        pa, pb = _rand_layout(rng, n), _rand_layout(rng, n)
+        # a third operand of another length; the junctions gap|gap, gap|residue, residue|gap are forced often
+        pc = _rand_layout(rng, rng.randint(1, 60))
+        r = rng.random()
+        if r < 0.35:
+            pa, pb = pa[:-1] + "1", "1" + pb[1:]
+        elif r < 0.45:
+            pa = pa[:-2] + "01"
+        elif r < 0.55:
+            pb = "10" + pb[2:]
+        if rng.random() < 0.4:
+            pc = "1" * rng.randint(1, 3) + pc[1:] if rng.random() < 0.7 else "1" * len(pc)
+        for p in (pa, pb, pc):
             small.setdefault(p, _mk_real(_mapd(_from_pattern(p)[1])))
         add_bin("minus", pa, pb, lambda a, b: a.minus_gaps(b), _mapd)
         add_bin("shared", pa, pb, lambda a, b: a.shared_gaps(b), pairs_conv)
         add_bin("add", pa, pb, lambda a, b: a + b, _mapd)
+        add_bin("add", pb, pc, lambda a, b: a + b, _mapd)
+        bump(out, "add_junction", ("gap" if pa[-1] == "1" else "res") + "|" + ("gap" if pb[0] == "1" else "res"))
+        # chain (a + b) + c : the left operand is itself a result of +
+        ab = _try(lambda: small[pa] + small[pb])
+        if not isinstance(ab, dict):
+            breqs.append(("binary", dict(a=_mapd(ab), b=_mapd(small[pc]), op="add")))
+            breal.append(("add3", pa + "+" + pb, pc, _try(lambda: ab + small[pc], _mapd)))
     for (cmd, rq), (op, pa, pb, real), model in zip(breqs, breal, drv.batch(breqs)):
         out["evaluations"] += 1
         bump(out, "binary_op", op)
@@ -332,7 +489,7 @@ def correspondence(ctx):
 
     # ---- 4. joined_segments / mul / from_aligned_segments / gap_coords_to_map --
     jreqs, jreal = [], []
-    for pat in pats + [_rand_pattern(rng, rng.randint(6, 40)) for _ in range(ctx.budget(200, 2000))]:
+    for pat in pats + [_rand_layout(rng, rng.randint(6, 40)) for _ in range(ctx.budget(200, 2000))]:
         m = small.get(pat) or _mk_real(_mapd(_from_pattern(pat)[1]))
         n = len(pat)
         md = _mapd(m)
@@ -516,18 +673,58 @@ def _cover_real(m):
     return r
 
 
+FM_KINDS = ["disjoint"] * 9 + ["minus"] * 3 + ["mixed"] * 3 + ["any"] * 5
+
+
+def _rand_index(rng, L):
+    """spans of an index map in the coordinates of a map of length L: forward / reverse (negative strand) spans,
+    ascending, descending or unordered, sometimes poking outside [0, L] (a poking span still touches [0, L]),
+    sometimes with a lost span"""
+    k = rng.randint(1, 3)
+    lo = -rng.randint(1, 3) if rng.random() < 0.15 else 0
+    hi = L + (rng.randint(1, 3) if rng.random() < 0.15 else 0)
+    if rng.random() < 0.75:
+        c = sorted(rng.randint(lo, hi) for _ in range(2 * k))
+        pairs = [[c[2 * j], c[2 * j + 1]] for j in range(k)]
+    else:
+        pairs = [sorted((rng.randint(lo, hi), rng.randint(lo, hi))) for _ in range(k)]
+    prev = rng.choice([0.0, 0.0, 0.15, 0.5, 1.0])
+    ospans = [[a, b, rng.random() < prev] for a, b in pairs if b >= 0 and a <= L]
+    if rng.random() < 0.3:
+        ospans.reverse()
+    if rng.random() < 0.2:
+        ospans.insert(rng.randint(0, len(ospans)), [rng.randint(1, 2)])
+    return ospans
+
+
+def _index_class(ospans, L):
+    real = [s for s in ospans if len(s) > 1]
+    c = []
+    if any(s[2] for s in real):
+        c.append("idx-rev")
+    if any(s[0] < 0 or s[1] > L for s in real):
+        c.append("idx-poke")
+    if any(len(s) == 1 for s in ospans):
+        c.append("idx-lost")
+    return "+".join(c) or "idx-plain"
+
+
 def _rand_fm(rng, kind):
     pl = rng.randint(0, 14)
     spans = []
-    if kind == "disjoint":
+    if kind in ("disjoint", "minus", "mixed"):
         k = rng.randint(0, 3)
         c = sorted(rng.sample(range(0, pl + 1), min(2 * k, (pl + 1) // 2 * 2)))
+        prev = {"disjoint": 0.15, "minus": 1.0, "mixed": 0.5}[kind]
         for i in range(len(c) // 2):
-            spans.append([c[2 * i], c[2 * i + 1], rng.random() < 0.15])
+            spans.append([c[2 * i], c[2 * i + 1], rng.random() < prev])
             if rng.random() < 0.25:
                 spans.append([rng.randint(1, 3)])
         if rng.random() < 0.2:
             spans.insert(0, [rng.randint(1, 2)])
+        if kind == "minus" or (kind == "mixed" and rng.random() < 0.5):
+            # a feature on the negative strand lists its spans from high to low coordinates
+            spans.reverse()
     else:
         for _ in range(rng.randint(0, 4)):
             if rng.random() < 0.2:
@@ -559,7 +756,7 @@ def _fmap_correspondence(ctx, out, rng):
 
     reqs, reals = [], []
     for i in range(ctx.budget(2500, 25000)):
-        kind = "disjoint" if rng.random() < 0.6 else "any"
+        kind = rng.choice(FM_KINDS)
         spans, pl = _rand_fm(rng, kind)
         try:
             m = _fm_real(spans, pl)
@@ -568,19 +765,16 @@ def _fmap_correspondence(ctx, out, rng):
         rq = dict(m=dict(spans=spans, pl=pl))
         o = None
         if spans and rng.random() < 0.7:
-            # an index map in the coordinates of m (sometimes poking outside)
+            # an index map in the coordinates of m (reverse spans, any order, sometimes poking outside)
             L = len(m)
-            k = rng.randint(1, 2)
-            lo = -1 if rng.random() < 0.1 else 0
-            c = sorted(rng.randint(lo, L + (1 if rng.random() < 0.1 else 0)) for _ in range(2 * k))
-            ospans = [[c[2 * j], c[2 * j + 1], rng.random() < 0.15] for j in range(k)]
-            if rng.random() < 0.2:
-                ospans.insert(rng.randint(0, len(ospans)), [rng.randint(1, 2)])
+            ospans = _rand_index(rng, L)
             try:
                 o = _fm_real(ospans, L)
                 rq["o"] = dict(spans=ospans, pl=L)
+                bump(out, "fmap_index_class", _index_class(ospans, L))
             except AssertionError:
                 o = None
+        bump(out, "fmap_kind_corr", kind + (":has-reverse" if any(len(s) > 1 and s[2] for s in spans) else ""))
         reqs.append(("fmap", rq))
         reals.append(_fmap_record(m, o))
     # from_locations incl. malformed
@@ -982,6 +1176,27 @@ def _sorted_forward(spans):
     return all(not s[2] for s in real) and all(real[i][1] <= real[i + 1][0] for i in range(len(real) - 1))
 
 
+def _regression_corpus(out):
+    """witnesses of repaired defects (status "fixed" in known_findings.d/C08.json) are replayed first on every run;
+    a failure is an ordinary spec failure (fixed entries are never matched as known)"""
+    import json
+    from .common import VERIF
+
+    fp = VERIF / "known_findings.d" / "C08.json"
+    if not fp.exists():
+        return
+    for k in json.loads(fp.read_text()).get("findings", []):
+        w = k.get("witness")
+        if k.get("status") != "fixed" or not w:
+            continue
+        out["evaluations"] += 1
+        bump(out, "regression_corpus", k["id"])
+        tmp = new_outcome()
+        _replay_into(tmp, w)
+        for f in tmp["failures"]:
+            add_failure(out, "spec", f"REGRESSION of {k['id']} ({k.get('commit')}): " + f["what"], f["input"], f["expected"], f["got"], sig="regression:" + f["sig"])
+
+
 def spec_check(ctx, budget):
     out = new_outcome(
         "real IndelMap/FeatureMap vs plain gapped strings: every layout of length<=7 (quick; more with budget) x every interval "
@@ -993,6 +1208,7 @@ def spec_check(ctx, budget):
     import cogent3
     from cogent3.core.location import IndelMap
 
+    _regression_corpus(out)
     nmax = 7 if budget <= 1 else 8 if budget <= 10 else 9
     letters = "ACGT"
     keep = {}
@@ -1081,16 +1297,13 @@ def _count_runs(s):
     return sum(1 for i, c in enumerate(s) if c == "-" and (i == 0 or s[i - 1] != "-"))
 
 
-def _replay_case(inp, sig):
-    """re-run the clauses about one recorded input on the real code; the failure with signature `sig` or None"""
+def _replay_into(out, inp):
+    """re-run every clause about one recorded input on the real code, collecting failures in out"""
     import cogent3
 
-    out = new_outcome()
-    if "spans" in inp:
-        return None
     s = inp.get("s")
-    if s is None:
-        return None
+    if s is None or "spans" in inp:
+        return
     if "t" in inp:
         ma = cogent3.make_seq(s, moltype="dna").parse_out_gaps()[0]
         mb = cogent3.make_seq(inp["t"], moltype="dna").parse_out_gaps()[0]
@@ -1103,8 +1316,14 @@ def _replay_case(inp, sig):
     else:
         ivs = [(inp.get("a"), inp.get("b"))] if ("a" in inp or "b" in inp) else []
         _check_layout(out, s, ivs, True)
+
+
+def _replay_case(inp, sig):
+    """the failure with signature `sig` (any if None) when the recorded input is re-run, or None"""
+    out = new_outcome()
+    _replay_into(out, inp)
     for f in out["failures"]:
-        if f["sig"] == sig:
+        if sig is None or f["sig"] == sig or sig.startswith("regression:"):
             return f
     return None
 
